@@ -720,6 +720,12 @@ func (g *graph) compile(ctx context.Context, opt *graphCompileOptions) (*composa
 			preProcessor:  node.nodeInfo.preProcessor,
 			postProcessor: node.nodeInfo.postProcessor,
 		}
+		if node.executorMeta.component == ComponentOfPassthrough {
+			// state handlers of a passthrough node are declared on `any`, so they hand on a stream of
+			// `any` chunks: restore the chunk type inferred for the node, which its successors rely on.
+			chCall.preProcessor = restoreStreamChunkType(chCall.preProcessor, node.getGenericHelper())
+			chCall.postProcessor = restoreStreamChunkType(chCall.postProcessor, node.getGenericHelper())
+		}
 
 		branches := g.branches[name]
 		if len(branches) > 0 {
@@ -849,6 +855,21 @@ func (g *graph) compile(ctx context.Context, opt *graphCompileOptions) (*composa
 	g.onCompileFinish(ctx, opt, key2SubGraphs)
 
 	return r.toComposableRunnable(), nil
+}
+
+func restoreStreamChunkType(processor *composableRunnable, gh *genericHelper) *composableRunnable {
+	if processor == nil || gh == nil || gh.outputConverter.transform == nil {
+		return processor
+	}
+	wrapper := *processor
+	wrapper.t = func(ctx context.Context, input streamReader, opts ...any) (streamReader, error) {
+		out, err := processor.t(ctx, input, opts...)
+		if err != nil {
+			return nil, err
+		}
+		return gh.outputConverter.transform(out), nil
+	}
+	return &wrapper
 }
 
 func getSuccessors(c *chanCall) []string {
